@@ -521,3 +521,56 @@ def r_sort_mapping(ctx: Ctx, rule: str) -> None:
                 )
     if seen == 0:
         raise AnalysisError("_select_to_executable never converts a sort term")
+
+
+def r_inner_calculation_name(ctx: Ctx, rule: str) -> None:
+    """A calculation may be slipped in *below* a Select's slots only if its tag does not shadow a hidden column."""
+    run, m = ctx.run, ctx.m
+    run.rule(
+        rule,
+        "a Calculation is placed inside an existing Select (below its sort/projection/... slots) only on paths that have "
+        "established that its tag is not a column of the Select's skip target - or that the Select has no projection, so "
+        "nothing is hidden: a column hidden by the projection may still be used by the Select's sort, and a new column of "
+        "the same name would capture that reference",
+        expected_min=2,
+    )
+    from ..flow import case_index, field_access
+
+    f = m.func(SQL_ENGINE, "Engine._append_unary_to_select")
+    ps = [p for p in f.params if p != "self"]
+    opn, sel = ps[0], ps[1]
+    n = 0
+    for i, p in enumerate(ctx.paths(f)):
+        if p.outcome != "return" or case_index(p, "Calculation", opn) < 0:
+            continue
+        pl = classify_return(p, "Calculation", sel)
+        if pl.kind != "INNER":
+            continue
+        n += 1
+        facts = path_facts(p)
+        inst = f"Calculation:INNER:path{i}"
+        no_projection = has_fact(facts, "TRUTH", (f"{sel}.has_projection",), False) or has_fact(facts, "IS", tuple(sorted(("None", f"{sel}.projection"))), True)
+        fresh = False
+        for fct in facts:
+            if fct.kind == "IN" and not fct.polarity and fct.args[1] in (f"{sel}.skip_to.columns",):
+                try:
+                    e = ast.parse(fct.args[0], mode="eval").body
+                except SyntaxError:
+                    continue
+                fa = field_access(p, e)
+                if fa is not None and fa[0] == opn and fa[1] == ("tag",):
+                    fresh = True
+        if fresh or no_projection:
+            run.ok(rule, inst, {"why": "tag not in skip target" if fresh else "no projection: nothing hidden"})
+        else:
+            run.fail(
+                rule,
+                inst,
+                f"the calculation is inserted below the Select's slots (`{src(p.value)[:60]}`) without `{opn}.tag not in {sel}.skip_to.columns`: "
+                "if the Select's projection hides a column of that name, its ORDER BY now refers to the new expression",
+                fi=f,
+                node=p.node,
+                details=describe(p),
+            )
+    if n == 0:
+        raise AnalysisError("_append_unary_to_select never places a Calculation inside an existing Select")
